@@ -4,6 +4,7 @@ use serde_json::Value;
 mod c08;
 mod c14;
 mod c20;
+mod strings;
 
 type SearchResult = (u64, Option<(Value, Outcome)>);
 
@@ -24,6 +25,8 @@ fn run_inner(case: &str, args: &Value) -> Option<Outcome> {
         "c08_num" | "c08_num_search_maximum" | "c08_num_search_minimum" | "c08_num_search_multiple_of" => Some(c08::num(args)),
         "c08_len" => Some(c08::len(args)),
         "c14_pos" => Some(c14::pos(args)),
+        "c15_quoted" => Some(strings::quoted(args)),
+        "c17_escape" => Some(strings::escape(args)),
         _ => None,
     }
 }
@@ -36,6 +39,7 @@ pub fn search(case: &str, seed: u64, open: &[String]) -> Option<SearchResult> {
         "c08_num_search_multiple_of" => Box::new(c08::num_inputs("multiple_of", seed)),
         "c08_len" => Box::new(c08::len_inputs(seed)),
         "c14_pos" => Box::new(c14::pos_inputs(seed)),
+        "c15_quoted" | "c17_escape" => Box::new(strings::string_inputs(seed)),
         _ => return None,
     };
     let mut tried = 0u64;
